@@ -189,6 +189,10 @@ Definition outside_method_body (p : position) : bool :=
   | _ => false
   end.
 
+(* positions written directly in the class body: not part of any method *)
+Definition class_level (p : position) : bool :=
+  match p with PClassBody | PClassAssignValue => true | _ => false end.
+
 (* [reached walk skip p extra]: the walker that starts [skip] fields below the ClassDef node
    (0 for CBO, which walks from the class node; 1 for LCOM, which walks from each method
    node) reaches the node [extra] fields below the root of a mention at position [p] *)
